@@ -167,6 +167,7 @@ func RegWithTreatedAsLevel(treatAs Level) RegOpt {
 // line to stderr device just like ErrorLevel.
 func RegWithPrintToErrorDevice(b ...bool) RegOpt {
 	return func(pack *regPack) {
+		pack.printOutToErrorDevice = true // no argument means on, as for every other ...bool option
 		for _, v := range b {
 			pack.printOutToErrorDevice = v
 		}
